@@ -73,6 +73,9 @@ type c17Input struct {
 	HdrSeed uint64 `json:"hdr_seed"`
 	// Chain: also run the ChainState / fuzz-service stage
 	Chain bool `json:"chain"`
+	// FailedFirst: an import of ANOTHER key-value list (foreign service entries plus a chapter
+	// value cut short, so that it is refused part-way) runs right before the import under test
+	FailedFirst bool `json:"failed_first,omitempty"`
 }
 
 func c17Gen(rt *rapid.T) c17Input {
@@ -100,6 +103,7 @@ func c17Gen(rt *rapid.T) c17Input {
 	in.HdrSlot = uint32(rapid.IntRange(0, 5000).Draw(rt, "hdrslot"))
 	in.HdrSeed = rapid.Uint64().Draw(rt, "hdrseed")
 	in.Chain = true
+	in.FailedFirst = rapid.IntRange(0, 2).Draw(rt, "failed_first") == 0
 	return in
 }
 
@@ -504,6 +508,36 @@ func c17Check(c *kit.Case, in c17Input) {
 				lookupBeforePreimage = true
 			} else {
 				lookupAfterPreimage = true
+			}
+		}
+	}
+
+	// ---- an import that is refused part-way must leave nothing behind for the next one
+	if in.FailedFirst {
+		other := c17CopyKV(list)
+		cut := -1
+		for i, kv := range other {
+			chapter := kv.Key[0] >= 1 && kv.Key[0] <= 16
+			for _, b := range kv.Key[1:] {
+				chapter = chapter && b == 0
+			}
+			if chapter && len(kv.Value) >= 2 {
+				cut = i
+			}
+		}
+		if cut >= 0 {
+			other[cut].Value = other[cut].Value[:len(other[cut].Value)/2]
+			for j := 0; j < 8; j++ { // entries of a service the state under test does not know
+				var k types.StateKey
+				k[0], k[1], k[2], k[3], k[4], k[5], k[6], k[7] = 0xAD, 0xFF, 0xDE, 0xFF, 0x0B, 0xFF, 0x00, 0xFF
+				k[8], k[30] = byte(j+1), byte(j)
+				// in front: they are seen before the damaged chapter is
+				other = append(types.StateKeyVals{{Key: k, Value: types.ByteSequence{byte(j), 1, 2, 3}}}, other...)
+			}
+			if _, _, ferr := m.StateKeyValsToState(other); ferr != nil {
+				c.Class("failed_import_before")
+			} else {
+				c.Class("damaged_import_was_accepted")
 			}
 		}
 	}
